@@ -213,7 +213,7 @@ def check_node(cfg, node):
                         'refine() with non-empty marks of active cells given as %s raised %s' % (op['container'], st), i)
             if op['kind'] == 'region' and not st.startswith('ValueError'):
                 return ('refine-region-raises:' + st.split(':')[0], 'refine_region raised ' + st, i)
-        bad = check_state(cfg, ob, default_marking) or check_boundary_queries(ob)
+        bad = check_state(cfg, ob, default_marking) or check_boundary_queries(ob) or check_support_queries(cfg, ob)
         if bad:
             return (bad[0], bad[1], i)
         # refine_region refines exactly the active cells of level lv whose centre satisfies the predicate
@@ -290,15 +290,28 @@ def ravel(shape, idx):
     return r
 
 
+def nwords(bits_):
+    return (bits_ + 59) // 60
+
+
+def words(m, n):
+    return [(m >> (60 * i)) & ((1 << 60) - 1) for i in range(n)]
+
+
 def enc(shape, s):
-    """Mirror of Tie.enc: (bit mask over raveled indices, size); impossible size for a set leaving the box."""
+    """Mirror of Tie.enc: bit mask over raveled indices in 60-bit words, then the size; impossible size
+    for a set leaving the box."""
+    size = 1
+    for n in shape:
+        size *= n
+    nw = nwords(size)
     s = [list(x) for x in s]
     if any(len(x) != len(shape) or any(not (0 <= i < n) for i, n in zip(x, shape)) for x in s):
-        return [0, 999999]
+        return [0] * nw + [999999]
     m = 0
     for x in s:
         m |= 1 << ravel(shape, x)
-    return [m, len(s)]
+    return words(m, nw) + [len(s)]
 
 
 def bits(l):
@@ -321,7 +334,7 @@ def ob_numbers(ob, with_tables):
     if any(k >= L for k in ret):
         out += [999999]
     if 'inc' in ob:
-        out += [len(ob['inc'])] + [sum(1 << j for j in row) for row in ob['inc']]
+        out += [len(ob['inc'])] + [w for row in ob['inc'] for w in words(sum(1 << j for j in row), nwords(ob['inc_shape'][1]))]
     if any(isinstance(r, str) for r in ob['rel']):
         out += [999999]
     else:
@@ -334,7 +347,7 @@ def ob_numbers(ob, with_tables):
                     out += [a, b]
     for q in ob['queries']:
         if 'error' in q:
-            out += [0, 999999] * 4
+            out += [999999]
         else:
             out += enc(cs[q['k']], q['cse']) + enc(fs[q['k']], q['fse']) + enc(cs[q['l']], q['supp']) + enc(fs[q['l']], q['supin'])
     return out
@@ -414,6 +427,76 @@ def check_boundary_queries(ob):
     return None
 
 
+def enc_dict(cs, n, d):
+    if isinstance(d, str):
+        return [999999]
+    dd = dict((k, v) for k, v in d)
+    out = []
+    for k in range(n):
+        out += enc(cs[k], dd.get(k, []))
+    if any(k >= n for k in dd):
+        out += [999999]
+    return out
+
+
+def sup_numbers(ob):
+    """Mirror of Tie.sup_obs."""
+    q = ob['supq']
+    L = ob['L']
+    cs = ob['numspans']
+    out = enc_dict(cs, L, q['all']) + enc_dict(cs, L, q['funcs_res']) + enc_dict(cs, L, q['cells_res'])
+    if isinstance(q['virt'], str):
+        out += [999999]
+    else:
+        for lv, d in enumerate(q['virt']):
+            out += enc_dict(cs, lv + 1, d)
+    return out
+
+
+def check_support_queries(cfg, ob):
+    """Independent oracle for hmesh_cells / compute_supports / compute_virtual_supports: the result is
+    the set of active cells whose box overlaps the box of one of the given cells / function supports;
+    the supports of all active functions cover all active cells.  Returns None or (slug, text)."""
+    q = ob.get('supq')
+    if not q:
+        return None
+    L = ob['L']
+    lev = ob['levels']
+    for name in ('all', 'funcs_res', 'cells_res', 'virt'):
+        if isinstance(q[name], str):
+            return ('support-query-raises', '%s raised %s' % ({'all': 'compute_supports(active functions)', 'funcs_res': 'compute_supports',
+                                                               'cells_res': 'hmesh_cells', 'virt': 'compute_virtual_supports'}[name], q[name]))
+    g = Geo(cfg, L)
+
+    def expected(blocks, active_per_level):
+        out = []
+        for l, cells in enumerate(active_per_level):
+            hit = [c for c in cells if any(overlap(g.cell_block(l, c), b) for b in blocks)]
+            if hit:
+                out.append([l, hit])
+        return out
+    active = [lv[0] for lv in lev]
+    if q['all'] != [[l, a] for l, a in enumerate(active) if a]:
+        got = dict((k, v) for k, v in q['all'])
+        miss = [(l, c) for l, a in enumerate(active) for c in a if c not in got.get(l, [])]
+        return ('supports-cover', 'compute_supports of all active functions does not return all active cells: missing %s' % (miss[:6],))
+    fb = [g.func_block(l, f) for l, fs in enumerate(q['funcs']) for f in fs]
+    exp = expected(fb, active)
+    if q['funcs_res'] != exp:
+        return ('compute-supports', 'compute_supports(%s) = %s; the active cells met by these supports are %s' % (q['funcs'], q['funcs_res'], exp))
+    cb = [g.cell_block(l, c) for l, cs_ in enumerate(q['cells']) for c in cs_]
+    exp = expected(cb, active)
+    if q['cells_res'] != exp:
+        return ('hmesh-cells', 'hmesh_cells(%s) = %s; the active cells overlapping these cells are %s' % (q['cells'], q['cells_res'], exp))
+    for lv in range(L):
+        vact = [lev[k][0] for k in range(lv)] + [sorted(lev[lv][0] + lev[lv][1])]
+        fb = [g.func_block(k, f) for k in range(lv + 1) for f in (lev[k][2] + (lev[k][3] if k == lv else []))]
+        exp = expected(fb, vact)
+        if q['virt'][lv] != exp:
+            return ('virtual-supports', 'compute_virtual_supports(global index lists)[%d] = %s, expected %s' % (lv, q['virt'][lv][:3], exp[:3]))
+    return None
+
+
 def coq_case(cfg, node, tables_last=True):
     axes = '[' + ';'.join('mk_axis %d %s' % (ax['p'], cmi(ax['mults'])) for ax in cfg['axes']) + ']'
     disp = 'None' if cfg['disparity'] is None else '(Some %d)' % cfg['disparity']
@@ -422,7 +505,7 @@ def coq_case(cfg, node, tables_last=True):
     last = max([i for i, ob in enumerate(node['obs']) if ob is not None], default=-1)
     for i, (op, ob) in enumerate(zip(node['ops'], node['obs'])):
         if ob is None or stop:
-            steps.append('(%s,false,false,[],None,false)' % coq_op(cfg, op))
+            steps.append('(%s,false,false,[],None,None,false)' % coq_op(cfg, op))
             exps.append('None')
             continue
         wt = tables_last and i == last
@@ -434,7 +517,12 @@ def coq_case(cfg, node, tables_last=True):
             bq = '(Some (%s,(%d,%d),%s))' % ('[' + ';'.join('(%d,%d)' % tuple(x) for x in b['bds']) + ']', b['bd'][0], b['bd'][1],
                                             cbool(b['with_boundary']))
             nums = nums + bd_numbers(ob)
-        steps.append('(%s,%s,%s,%s,%s,true)' % (coq_op(cfg, op), cbool('inc' in ob), cbool(wt), qs, bq))
+        sq = 'None'
+        if ob.get('supq'):
+            q = ob['supq']
+            sq = '(Some (%s,%s))' % ('[' + ';'.join(cset(x) for x in q['funcs']) + ']', '[' + ';'.join(cset(x) for x in q['cells']) + ']')
+            nums = nums + sup_numbers(ob)
+        steps.append('(%s,%s,%s,%s,%s,%s,true)' % (coq_op(cfg, op), cbool('inc' in ob), cbool(wt), qs, bq, sq))
         exps.append('Some ([' + ';'.join(str(x) for x in nums) + ']%N)')
         if status_code(ob['status']) == 2:
             stop = True     # the histories diverge after an unexpected exception
@@ -515,6 +603,18 @@ def gen_cases(ctx):
                 {'kind': 'refine', 'marks': [[2, [[2, 2]]], [1, [[0, 0]]]], 'container': cont, 'trunc': d is not None},
                 {'kind': 'refine', 'marks': [], 'container': cont, 'trunc': False},
                 {'kind': 'region', 'lv': 4, 'pred': {'type': 'ball', 'c': [0, 0], 'r2': [1, 7]}}]})
+    # --- deep narrow chains with finite disparity >= 2 (2d+2 calls, every call adds a level; the
+    # disparity marking has to propagate over several hops); the chain converges to a seeded coarse vertex
+    chain_cfgs = []
+    for d in (2, 3):
+        for p in (1, 2):
+            for _ in range(6 if thorough else (3 if d == 2 else 1)):
+                chain_cfgs.append(([uniform_axis(p, rng.choice([3, 4]))], d))
+    for _ in range(8 if thorough else 2):
+        chain_cfgs.append(([uniform_axis(rng.randint(1, 2), rng.choice([2, 3])), uniform_axis(rng.randint(1, 2), 2)], 2))
+    for axes, d in chain_cfgs:
+        cases.append({'cfg': cfg(axes, d, rng.random() < 0.5), 'mode': 'chain', 'seed': rng.randrange(1 << 30),
+                      'nops': 2 * d + 2 if len(axes) == 1 else 2 * d + 1, 'cap': 500, 'what': 'chain-%dd-d%d' % (len(axes), d)})
     # --- seeded random histories
     nrand = 1000 if thorough else 70
     for _ in range(nrand):
@@ -578,7 +678,8 @@ def run(ctx):
         'float conjuncts (THB partition of unity, non-negativity, HB<->THB inverse, same space, independence by rank) are NOT proved: '
         'checked on the implementation only, bound MAT_TOL=%g (derivation in harness/props/c04.py)' % MAT_TOL,
         'boundary(), index_dirichlet, dirichlet/non_dirichlet_dofs, new/cell_supp/global_indices, indices_to_smooth(new, cell_supp) are modelled '
-        '(coq/C04/Boundary.v) and compared exactly for seeded bdspecs; not modelled: trunc/func_supp index lists (need the sparsity pattern '
+        '(coq/C04/Boundary.v) and compared exactly for seeded bdspecs; hmesh_cells / compute_supports / compute_virtual_supports are modelled '
+        '(coq/C04/Supports.v) and compared exactly on multi-level queries; not modelled: trunc/func_supp index lists (need the sparsity pattern '
         'of the floating-point prolongation matrices), copy.deepcopy, scipy sparse formats, prolongators (C05)',
     ]
     cases = gen_cases(ctx)
